@@ -194,7 +194,8 @@ let () =
             let (stp, _) = FaultTie.ft_feed ft_md5 ft_deq zdecomp unzl hx aparse cfg dest (Transfer.tr_receiver_init f0 []) (take i ms) in
             (match stp.Transfer.rs_phase with
              | Transfer.RpFail | Transfer.RpDone -> "F"
-             | _ -> "D:" ^ names)
+             | Transfer.RpExit -> "D:" ^ ft_hexs stp.Transfer.rs_names   (* the regular end: trz prints ITS names (formatSavedFiles localNames) *)
+             | _ -> "D:" ^ names)                                        (* "remote exit": the text of the client's message *)
           | _, None -> "F"
         end else (match st.Transfer.rs_phase with
             | Transfer.RpDone -> "D:" ^ ft_hexs st.Transfer.rs_names
